@@ -24,7 +24,7 @@ use plonky2::plonk::circuit_data::CircuitConfig;
 use plonky2::plonk::vars::{EvaluationTargets, EvaluationVars, EvaluationVarsBaseBatch};
 use plonky2_field::extension::{Extendable, FieldExtension};
 
-use crate::ctx::{def, eq, Ctx, Ob, A, VF};
+use crate::ctx::{def, eq, eqz_factored, Ctx, Ob, A, VF};
 
 type Ext<F> = <F as Extendable<2>>::Extension;
 
@@ -247,8 +247,8 @@ fn gate_obs_inner<F: VF, Gt: Gate<F, 2>>(ctx: &mut Ctx, name: &str, gate: Gt, sp
             for c in &cs2 {
                 let l = limbs::<F>(*c);
                 if !spec.cut || F::mentions(l[0], r2[j]) || F::mentions(l[1], r2[j]) {
-                    chyps.push(eq(l[0], F::ZERO));
-                    chyps.push(eq(l[1], F::ZERO));
+                    chyps.push(eqz_factored(l[0]));
+                    chyps.push(eqz_factored(l[1]));
                     terms.push(l[0]);
                     terms.push(l[1]);
                     used += 1;
@@ -265,6 +265,32 @@ fn gate_obs_inner<F: VF, Gt: Gate<F, 2>>(ctx: &mut Ctx, name: &str, gate: Gt, sp
                     .key(format!("{}:unpinned-wire", gate_kind(name))),
             );
         }
+    }
+
+    // --- Ob7.2' joint determinism: all generated wires replaced at once (small gates)
+    if gate.num_constraints() > 0 && !spec.cut && !written.is_empty() && written.len() <= 48 {
+        let mut r2 = row_c.clone();
+        let mut ds = vec![];
+        for &j in &written {
+            let d = F::var(&format!("delta{j}"));
+            r2[j] = row_c[j] + d;
+            ds.push(d);
+        }
+        let cs2 = eval_row(&gate, &consts, &r2, &pi);
+        let mut hyps = vec![];
+        for c in &cs2 {
+            let l = limbs::<F>(*c);
+            hyps.push(eqz_factored(l[0]));
+            hyps.push(eqz_factored(l[1]));
+        }
+        ctx.add(
+            Ob::new(format!("{idp}.determined"), &[file], format!("all inputs, all simultaneous replacements of the {} generated wires; {params}", written.len()))
+                .sample(format!("every generated wire w replaced by w + delta_w; all constraints of {name} == 0  ==>  every delta_w == 0"))
+                .hyps(hyps)
+                .goals(ds.iter().map(|d| eq(*d, F::ZERO)).collect())
+                .domain()
+                .key(format!("{}:under-constrained", gate_kind(name))),
+        );
     }
 
     // --- Ob7.3 evaluator lock-step on fully symbolic rows
